@@ -61,6 +61,206 @@ type raceReport struct {
 	SlabOps        int      `json:"partC_ops"`
 	SlabMismatch   int      `json:"partC_mismatches"`
 	SlabFirst      string   `json:"partC_first_mismatch"`
+	ChurnOps       int      `json:"partD_ops"`
+	ChurnMismatch  int      `json:"partD_mismatches"`
+	ChurnFirst     string   `json:"partD_first_mismatch"`
+}
+
+// racePoolChurn — Part D: the node pools under load.  Every goroutine owns ONE tree and takes one branching position
+// through 4 -> 16 -> 48 -> 256 children and back to one child, again and again, with no pause: nodes of every size
+// class are released by one goroutine and acquired by another all the time, each grow of one tree next to a shrink of
+// another.  A node handed to the pool while its old owner still writes to it, or handed out twice, is a data race
+// between two goroutines that share nothing else; what each tree holds is checked after every phase.
+func racePoolChurn(G int) (ops, mismatches int, first string) {
+	var mu sync.Mutex
+	bad := func(msg string) {
+		mu.Lock()
+		mismatches++
+		if first == "" {
+			first = msg
+		}
+		mu.Unlock()
+	}
+	var start, done sync.WaitGroup
+	start.Add(1)
+	for g := 0; g < G; g++ {
+		done.Add(1)
+		go func(g int) {
+			defer done.Done()
+			t := art.NewUnsignedBinaryTree[uint32, int]()
+			key := func(b int) uint32 { return uint32(g)<<16 | 0x5500 | uint32(b) }
+			n := 0
+			check := func(lo, hi int, phase string) {
+				for b := 0; b < 256; b++ {
+					v, ok := t.Search(key(b))
+					want := b >= lo && b < hi
+					if ok != want || (ok && v != b) {
+						bad(fmt.Sprintf("churn: goroutine %d %s: Search(byte %#x) = %d, %v; stored bytes [%#x, %#x)", g, phase, b, v, ok, lo, hi))
+						return
+					}
+				}
+				if t.Size() != hi-lo {
+					bad(fmt.Sprintf("churn: goroutine %d %s: Size() = %d, want %d", g, phase, t.Size(), hi-lo))
+				}
+				n += 257
+			}
+			start.Wait()
+			for round := 0; round < 6; round++ {
+				for b := 0; b < 256; b++ { // up through every class
+					t.Insert(key(b), b)
+					if b == 4 || b == 16 || b == 48 {
+						runtime.Gosched() // a smaller node has just been released by the growth
+					}
+					if b == 48 || b == 49 || b == 255 {
+						check(0, b+1, "growing")
+					}
+				}
+				for b := 255; b >= 1; b-- { // and down again: 256 -> 48 at 37, 48 -> 16 at 12, 16 -> 4 at 3, collapse at 1
+					if !t.Delete(key(b)) {
+						bad(fmt.Sprintf("churn: goroutine %d: Delete(byte %#x) of a present key returned false", g, b))
+					}
+					if b == 38 || b == 37 || b == 36 || b == 12 || b == 3 {
+						// a node has just been released: let another goroutine run NOW and take it from the pool (being
+						// scheduled is not a synchronisation: what the old owner did to the node after releasing it is
+						// ordered with nothing the new owner does)
+						runtime.Gosched()
+						check(0, b, "shrinking")
+					}
+				}
+				t.Delete(key(0))
+				check(0, 0, "emptied")
+				n += 512
+			}
+			mu.Lock()
+			ops += n
+			mu.Unlock()
+		}(g)
+	}
+	start.Done()
+	done.Wait()
+	o2, m2, f2 := racePoolHandoff(G)
+	ops += o2
+	mismatches += m2
+	if first == "" {
+		first = f2
+	}
+	return
+}
+
+// racePoolHandoff: nodes released by one goroutine and acquired by ANOTHER, by construction.  Half of the goroutines
+// hold four trees each with a 49-child node (class 256), the other half four trees with 36 children under a node48.
+// In every round the first half shrinks its trees to 36 children (four node256 released, four node48 acquired), all
+// goroutines meet at a barrier, then the other half grows its trees to 49 (four node256 acquired — its own pool
+// slots are empty, so they come from what the first half released); then the roles are swapped.  A node that its
+// old owner still writes to after releasing it, or a node handed out twice, shows in what the trees hold afterwards.
+// (The barrier orders the two halves, so the race detector sees nothing here: that is what the yields of the churn
+// above are for; this part checks the CONTENTS after a forced hand-over.)
+func racePoolHandoff(G int) (ops, mismatches int, first string) {
+	if G%2 == 1 {
+		G--
+	}
+	const K, rounds = 4, 8
+	var mu sync.Mutex
+	bad := func(msg string) {
+		mu.Lock()
+		mismatches++
+		if first == "" {
+			first = msg
+		}
+		mu.Unlock()
+	}
+	type barrier struct {
+		mu     sync.Mutex
+		cond   *sync.Cond
+		n, gen int
+	}
+	bar := &barrier{}
+	bar.cond = sync.NewCond(&bar.mu)
+	wait := func() {
+		bar.mu.Lock()
+		gen := bar.gen
+		bar.n++
+		if bar.n == G {
+			bar.n = 0
+			bar.gen++
+			bar.cond.Broadcast()
+		} else {
+			for gen == bar.gen {
+				bar.cond.Wait()
+			}
+		}
+		bar.mu.Unlock()
+	}
+	var done sync.WaitGroup
+	for g := 0; g < G; g++ {
+		done.Add(1)
+		go func(g int) {
+			defer done.Done()
+			var trees [K]art.Tree[uint32, int]
+			key := func(k, b int) uint32 { return uint32(g)<<20 | uint32(k)<<16 | 0x7700 | uint32(b) }
+			big := g%2 == 0 // holds 49 children per tree (else 36)
+			for k := range trees {
+				trees[k] = art.NewUnsignedBinaryTree[uint32, int]()
+				top := 36
+				if big {
+					top = 49
+				}
+				for b := 0; b < top; b++ {
+					trees[k].Insert(key(k, b), b)
+				}
+			}
+			check := func(phase string) {
+				top := 36
+				if big {
+					top = 49
+				}
+				for k := range trees {
+					for b := 0; b < 52; b++ {
+						v, ok := trees[k].Search(key(k, b))
+						if ok != (b < top) || (ok && v != b) {
+							bad(fmt.Sprintf("handoff: goroutine %d tree %d %s: Search(byte %#x) = %d, %v with %d children", g, k, phase, b, v, ok, top))
+							return
+						}
+					}
+					if trees[k].Size() != top {
+						bad(fmt.Sprintf("handoff: goroutine %d tree %d %s: Size() = %d, want %d", g, k, phase, trees[k].Size(), top))
+					}
+				}
+			}
+			n := 0
+			for r := 0; r < rounds; r++ {
+				wait()
+				if big { // release: 49 -> 36 children
+					for k := range trees {
+						for b := 48; b >= 36; b-- {
+							trees[k].Delete(key(k, b))
+						}
+					}
+					big = false
+					check("after shrinking")
+					n += K * 13
+					wait()
+				} else { // acquire, after the others have released
+					wait()
+					for k := range trees {
+						for b := 36; b < 49; b++ {
+							trees[k].Insert(key(k, b), b)
+						}
+					}
+					big = true
+					check("after growing")
+					n += K * 13
+				}
+				wait()
+				check("settled")
+			}
+			mu.Lock()
+			ops += n
+			mu.Unlock()
+		}(g)
+	}
+	done.Wait()
+	return
 }
 
 // raceSlab — Part C: every goroutine has PRIVATE trees (a byte-string tree and a collation tree with []byte keys),
@@ -591,6 +791,12 @@ func raceMain(args []string) int {
 		rep.First = rep.SlabFirst
 	}
 	rep.MismatchA += rep.SlabMismatch
+	// ---------------- Part D: pool churn — every goroutine takes one private tree through all size classes and back, over and over
+	rep.ChurnOps, rep.ChurnMismatch, rep.ChurnFirst = racePoolChurn(G)
+	if rep.ChurnFirst != "" && rep.First == "" {
+		rep.First = rep.ChurnFirst
+	}
+	rep.MismatchA += rep.ChurnMismatch
 	rep.Yields = int(yields)
 	rep.Distinct = len(distinct)
 	for h := range nontrivial {
